@@ -30,10 +30,12 @@ final status / terminated flag of every step, the tasks still pending, and the t
 from __future__ import annotations
 
 import asyncio
+import itertools
 import json
 import os
 import posixpath
 import random
+import time
 from typing import Any
 
 from sfv.rt.loop import run_controlled
@@ -224,12 +226,54 @@ CORPUS = [
         {"id": 4, "kind": "dot", "ins": [10, 4], "outs": [6, 7]},
         {"id": 5, "kind": "tf", "ins": [6, 7], "outs": [8], "fn": "lin", "k": 0},
         {"id": 6, "kind": "gather", "ins": [8, 5], "outs": [9], "depth": 1}]},
+    # a workflow without declared output ports (the executor's `await asyncio.gather(*self.executions)` branch)
+    {"nports": 5, "no_outputs": True, "sources": [{"port": 0, "value": [4, 5, 6]}], "closed": [], "nodes": [
+        {"id": 0, "kind": "scatter", "ins": [0], "outs": [1, 2]},
+        {"id": 1, "kind": "tf", "ins": [1], "outs": [3], "fn": "add", "k": 2},
+        {"id": 2, "kind": "gather", "ins": [3, 2], "outs": [4], "depth": 1}]},
     {"nports": 7, "sources": [{"port": 0, "value": [2, 7, 4]}], "closed": [], "nodes": [
         {"id": 0, "kind": "scatter", "ins": [0], "outs": [1, 2]},
         {"id": 1, "kind": "tf", "ins": [1], "outs": [3], "fn": "add", "k": 3},
         {"id": 2, "kind": "loop", "ins": [1, 3], "outs": [4], "k": 2},
         {"id": 3, "kind": "gather", "ins": [4, 2], "outs": [5], "depth": 1},
         {"id": 4, "kind": "tf", "ins": [5], "outs": [6], "fn": "sum", "k": 0}]},
+    # a job pipeline with TWO input ports that deliver the tags in DIFFERENT orders (one branch comes out of jobs, i.e.
+    # reversed under the even schedule seeds, the other straight from a transformer), both port orders: the ScheduleStep must
+    # build the job of a tag from the tokens of THAT tag (not from those of its last reading round)
+    *[{"nports": 7, "sources": [{"port": 0, "value": [4, 5, 6, 7]}], "closed": [], "nodes": [
+        {"id": 0, "kind": "scatter", "ins": [0], "outs": [1, 2]},
+        {"id": 1, "kind": "tf", "ins": [1], "outs": [3], "fn": "add", "k": 1},
+        {"id": 2, "kind": "exec", "ins": [1], "outs": [4], "k": 1},
+        {"id": 3, "kind": "exec", "ins": ins, "outs": [5], "k": 2},
+        {"id": 4, "kind": "gather", "ins": [5, 2], "outs": [6], "depth": 1}]} for ins in ([3, 4], [4, 3])],
+]
+
+
+def _arrival(ds: float, dp: float, dq: float) -> dict:
+    """dot(s scattered, p plain, q plain); the three inputs reach the combinator after `ds` / `dp` / `dq` seconds"""
+    return {"nports": 13, "sources": [{"port": 0, "value": [1, 2, 3]}, {"port": 1, "value": 10}, {"port": 2, "value": 100}],
+            "closed": [], "nodes": [
+        {"id": 0, "kind": "tf", "ins": [0], "outs": [3], "fn": "add", "k": 0, "delay": ds},
+        {"id": 1, "kind": "scatter", "ins": [3], "outs": [4, 5]},
+        {"id": 2, "kind": "tf", "ins": [1], "outs": [6], "fn": "add", "k": 0, "delay": dp},
+        {"id": 3, "kind": "tf", "ins": [2], "outs": [7], "fn": "add", "k": 0, "delay": dq},
+        {"id": 4, "kind": "dot", "ins": [4, 6, 7], "outs": [8, 9, 10]},
+        {"id": 5, "kind": "tf", "ins": [8, 9, 10], "outs": [11], "fn": "lin", "k": 0},
+        {"id": 6, "kind": "gather", "ins": [11, 5], "outs": [12], "depth": 1}]}
+
+
+# combinators under CONTROLLED arrival orders (used by C05): one scattered and two plain inputs in all 6 arrival orders
+# (e.g. plain p, then the scattered elements, then plain q: q must still be combined with every element), plus a variant
+# in which the order is forced by a data dependency (q is computed from the gathered elements) instead of by the clock
+ARRIVAL_CORPUS = [_arrival(*[0.12 * r for r in perm]) for perm in itertools.permutations((0, 1, 2))] + [
+    {"nports": 13, "sources": [{"port": 0, "value": [1, 2, 3]}, {"port": 1, "value": 10}], "closed": [], "nodes": [
+        {"id": 0, "kind": "scatter", "ins": [0], "outs": [2, 3]},
+        {"id": 1, "kind": "gather", "ins": [2, 3], "outs": [4], "depth": 1},
+        {"id": 2, "kind": "tf", "ins": [4], "outs": [5], "fn": "sum", "k": 0},
+        {"id": 3, "kind": "dot", "ins": [2, 1, 5], "outs": [6, 7, 8]},
+        {"id": 4, "kind": "tf", "ins": [6, 7, 8], "outs": [9], "fn": "lin", "k": 0},
+        {"id": 5, "kind": "gather", "ins": [9, 3], "outs": [10], "depth": 1},
+        {"id": 6, "kind": "tf", "ins": [10], "outs": [11, 12], "fn": "split", "k": 0}]},
 ]
 
 
@@ -246,6 +290,12 @@ def gen_spec(rng: random.Random, size: int = 8, features: dict | None = None, ma
         except IllFormed:
             continue
         if sum(len(v) for v in den.values()) <= max_tokens * 4 and max((len(v) for v in den.values()), default=0) <= max_tokens:
+            # arrival orders: in a third of the workflows one or two transformers (with few tokens) are slow, so that a whole
+            # branch reaches the joins / combinators / job pipelines downstream later than its siblings (`den` does not change)
+            slow = [n for n in spec["nodes"] if n["kind"] == "tf" and len(den[n["ins"][0]]) <= 6]
+            if slow and rng.random() < 0.35:
+                for n in rng.sample(slow, min(len(slow), rng.randint(1, 2))):
+                    n["delay"] = rng.choice((0.02, 0.05))
             return spec
     raise RuntimeError("generator could not produce a well-formed workflow")
 
@@ -456,7 +506,17 @@ def _upstream_of_loops(spec: dict) -> set[int]:
 
 
 def choose_failure(rng: random.Random, spec: dict, escape_prob: float = 0.3, loop_upstream_prob: float = 0.12,
-                   job_prob: float = 0.5) -> dict | None:
+                   job_prob: float = 0.5, no_outputs_prob: float = 0.15) -> dict | None:
+    """`_choose_failure`; in addition some of the failing workflows declare no output port at all (`no_outputs`): the
+    executor then only awaits the step tasks, and nobody but the failing step's own task closes it"""
+    out = _choose_failure(rng, spec, escape_prob, loop_upstream_prob, job_prob)
+    if out is not None and rng.random() < no_outputs_prob:
+        out["no_outputs"] = True
+    return out
+
+
+def _choose_failure(rng: random.Random, spec: dict, escape_prob: float = 0.3, loop_upstream_prob: float = 0.12,
+                    job_prob: float = 0.5) -> dict | None:
     """copy of the spec with one injected failure:
     * a transformer raises on one of the tags it processes (`Transformer.run` catches it: the step ends FAILED and the
       failure travels as TerminationToken(FAILED)), or
@@ -539,7 +599,7 @@ async def build(context, spec: dict, workdir: str):
         kind = n["kind"]
         if kind == "tf":
             step = workflow.create_step(cls=GenTransformer, name=name, fn=n["fn"], k=n.get("k", 0), nin=len(n["ins"]),
-                                        fail_tag=(n.get("fail") or {}).get("tag"))
+                                        fail_tag=(n.get("fail") or {}).get("tag"), delay=n.get("delay", 0.0))
             for j, p in enumerate(n["ins"]):
                 step.add_input_port(f"i{j}", ports[p])
             for j, p in enumerate(n["outs"]):
@@ -609,7 +669,8 @@ async def build(context, spec: dict, workdir: str):
     # every port without a consumer is a workflow output (otherwise the executor never reads it)
     consumed = {p for n in spec["nodes"] for p in n["ins"]}
     for i, port in enumerate(ports):
-        if i not in consumed:
+        if i not in consumed and not spec.get("no_outputs"):
+            # ("no_outputs": the workflow declares no output port at all: StreamFlowExecutor.run then simply awaits the steps)
             workflow.output_ports[f"out{i}"] = port.name
     await workflow.save(context.database)
     # sources: persisted token then termination; closed ports: termination only
@@ -698,11 +759,51 @@ def run_spec(spec: dict, seed: int, workdir: str, timeout: float = 60.0, shuffle
                     result.setdefault("unterminated_at_exit", sorted(n for n, st in workflow.steps.items() if not st.terminated))
 
             run_task = asyncio.create_task(runner())
-            done, _ = await asyncio.wait({run_task}, timeout=timeout)
+
+            def workflow_tasks():
+                return [t for t in asyncio.all_tasks() if t is not me and not t.done() and t is not run_task
+                        and not _is_infrastructure(t)]
+
+            def progress_mark():
+                # anything that changes while the workflow is still working: tokens on the ports, terminated steps, finished tasks
+                return (sum(len(p.token_list) for p in workflow.ports.values()),
+                        sum(1 for st in workflow.steps.values() if st.terminated), len(workflow_tasks()))
+
+            # A hang verdict is "run() has not finished AND the state of the workflow did not change for a whole window",
+            # never elapsed time alone: on a loaded machine a healthy run is slow but keeps moving. The window is the nominal
+            # timeout scaled by the machine load; when every step is terminated and no step task is pending (run() is about
+            # to return: it only waits for its own database update) the window is three times as long.
+            window = timeout * load_factor()
+            t_start = time.monotonic()
+            mark, t_mark, waits = progress_mark(), t_start, 0
+            while True:
+                done, _ = await asyncio.wait({run_task}, timeout=min(1.0, window / 8))
+                if done:
+                    break
+                now, m = time.monotonic(), progress_mark()
+                if m != mark:
+                    mark, t_mark = m, now
+                idle_state = all(st.terminated for st in workflow.steps.values()) and not workflow_tasks()
+                if now - t_mark >= min(window, 5.0) and any(_awaits_itself(t) for t in asyncio.all_tasks() if not t.done()):
+                    break       # dead-lock by inspection (see below): no need to wait for the whole window
+                if now - t_mark >= (3 * window if idle_state else window) or now - t_start >= 6 * window:
+                    break
+            result["watchdog"] = {"window_s": round(window, 1), "waited_s": round(time.monotonic() - t_start, 1),
+                                  "quiet_s": round(time.monotonic() - t_mark, 1)}
             if not done:
                 result["unterminated_at_exit"] = sorted(n for n, st in workflow.steps.items() if not st.terminated)
-            if not done:
-                result["outcome"] = {"kind": "hang", "detail": f"executor.run() did not finish in {timeout}s"}
+                # a dead-lock by inspection: a task that waits for a gather() of which it is itself a member can never finish
+                # (and cannot be cancelled: Task.cancel() recurses through the gather back into the task)
+                selfw = [t for t in asyncio.all_tasks() if not t.done() and _awaits_itself(t)]
+                result["self_awaiting_tasks"] = sorted(_task_label(t) for t in selfw)
+                if selfw:
+                    result["known_deadlock_state"] = True
+                quiet = time.monotonic() - t_mark
+                result["outcome"] = {"kind": "hang", "detail": (
+                    f"executor.run() did not finish: no change of the workflow state (tokens, terminated steps, pending tasks) for "
+                    f"{quiet:.0f}s (window {window:.0f}s, total {time.monotonic() - t_start:.0f}s)"
+                    + (f"; tasks awaiting their own cancellation: {result['self_awaiting_tasks']}" if selfw else "")
+                    + ("; every step is terminated and no step task is pending" if not result["unterminated_at_exit"] and not workflow_tasks() else ""))}
             elif run_task.cancelled():
                 result["outcome"] = {"kind": "raise", "detail": "CancelledError"}
             elif run_task.exception() is not None:
@@ -735,9 +836,6 @@ def run_spec(spec: dict, seed: int, workdir: str, timeout: float = 60.0, shuffle
                         result["known_deadlock_state"] = True
 
             # let finishing tasks settle (the last `_set_status` of a step is a database await served by a thread)
-            def workflow_tasks():
-                return [t for t in asyncio.all_tasks() if t is not me and not t.done() and t is not run_task
-                        and not _is_infrastructure(t)]
             for _ in range(30):
                 await asyncio.sleep(0)
             waited = 0.0
@@ -772,7 +870,16 @@ def run_spec(spec: dict, seed: int, workdir: str, timeout: float = 60.0, shuffle
             result["outputs"] = sorted(workflow.output_ports)
             result["db"] = await _dump_db(context)
             if not done:
-                run_task.cancel()
+                for t in [t for t in asyncio.all_tasks() if not t.done() and _awaits_itself(t)]:
+                    # break the cycle (plain Future.cancel: the gather's own cancel() would recurse), else no event loop
+                    # shutdown ever completes and the verdict above would be lost with the worker process
+                    asyncio.Future.cancel(t._fut_waiter)
+                for _ in range(5):
+                    await asyncio.sleep(0)
+                try:
+                    run_task.cancel()
+                except RecursionError:
+                    pass
         finally:
             try:
                 await asyncio.wait_for(context.close(), 10)
@@ -780,9 +887,12 @@ def run_spec(spec: dict, seed: int, workdir: str, timeout: float = 60.0, shuffle
                 pass
 
     try:
-        run_controlled(main, seed, timeout=timeout + 30, shuffle=shuffle)
+        run_controlled(main, seed, timeout=6 * timeout * load_factor() + 60, shuffle=shuffle)
     except (TimeoutError, asyncio.TimeoutError):
-        result.setdefault("outcome", {"kind": "hang", "detail": "harness watchdog"})
+        # the bound around the WHOLE harness coroutine (build, run, inspection, context shutdown) fired before the watchdog on
+        # executor.run() reached a verdict: nothing is known about the implementation => a harness note, never a violation
+        result.setdefault("outcome", {"kind": "harness-error", "detail": "harness bound reached before the run gave a verdict "
+                                      f"(build / inspection / shutdown too slow; load {os.getloadavg()[0]:.0f})"})
     except Exception as e:  # noqa: BLE001
         result.setdefault("outcome", {"kind": "harness-error", "detail": f"{type(e).__name__}: {e}"})
     return result
@@ -796,6 +906,19 @@ def _jsonable(v):
     if isinstance(v, dict):
         return {str(k): _jsonable(x) for k, x in v.items()}
     return repr(v)
+
+
+def load_factor() -> float:
+    """how much slower than an idle machine this one probably is: runnable processes per core, between 1 and 3"""
+    try:
+        return max(1.0, min(3.0, os.getloadavg()[0] / (os.cpu_count() or 1)))
+    except OSError:
+        return 1.0
+
+
+def _awaits_itself(t: asyncio.Task) -> bool:
+    fut = getattr(t, "_fut_waiter", None)
+    return fut is not None and any(c is t for c in getattr(fut, "_children", ()) or ())
 
 
 def _task_label(t: asyncio.Task) -> str:
